@@ -770,7 +770,10 @@ func (r *run) filterOracle(data *gosm.Data, S result) {
 		r.ks = fs
 		r.compare("Filter", out, in, want, true)
 		if r.res.Viol == nil {
-			r.compare("Filter∘Filter", out2, in, want, true)
+			// same fingerprint as the single application: with Go's map order
+			// inside Filter not owned by the simulator, which of the two
+			// trips first may vary between executions of one tape
+			r.compare("Filter", out2, in, want, true)
 		}
 		r.ks = save
 		// never more than it was given: pointer-level subset is implied by the id comparison above
